@@ -90,11 +90,11 @@ theorem C16_generated :
 
 set_option maxRecDepth 100000 in
 /-- The literal reading "EVERY `retErr` after `flockTry` is preceded by a `flockRelease`" does not
-hold on the current table: the offending rows are exactly `Open` 3 and 4, the two
+hold on the current table: the offending rows are exactly two error returns of `Open`, the two
 acquisition-failure returns.  (Reported rather than hidden; see `Lockset.ReleasesOnError`.) -/
 example : ¬ ReleasesOnErrorStrict locksetTable ∧
-    (unreleasedRows 0 false false 0 (openRows locksetTable)).map (fun r => (r.method, r.ord)) =
-      [("Open", 3), ("Open", 4)] := by decide
+    (unreleasedRows 0 false false 0 (openRows locksetTable)).map (fun r => (r.method, r.action)) =
+      [("Open", "retErr"), ("Open", "retErr")] := by decide
 
 /-- the predicates are not vacuous: an `Open` whose later failing return does not release, a third
 immediate return after `TryLock`, an `Open` without `flockTry`, and a `Close` with a return that
